@@ -196,6 +196,48 @@ def fams_c11(tier, seed):
     ]
 
 
+# window sweeps (lib/conc.py WINDOW_TEMPLATES) run with the monitors and oracles of the property's first conc profile
+_TIMED_S = ["timed-send-close", "timed-send-close-r", "timed-send-disc", "timed-sendo-disc", "timed-send-peer", "timed-sendo-peer", "slow-close", "slow-disc"]
+_TIMED_R = ["timed-recv-close", "timed-recv-disc", "timed-recv-peer", "timed-recv-try"]
+_REPOLL = ["repoll-recv-close", "repoll-recv-disc", "repoll-recv-peer", "repoll-send-close", "repoll-send-peer"]
+_FDROP = ["drop-recv-peer", "drop-send-peer", "drop-recv-close", "drop-send-close"]
+WINDOWS = {
+    "C01": _TIMED_S + ["drop-send-peer", "drop-recv-peer", "repoll-recv-close"],
+    "C05": _TIMED_S + ["drop-send-peer", "drop-send-close", "drop-recv-peer"],
+    "C13": _TIMED_S + _TIMED_R,
+    "C10": ["timed-send-close", "timed-recv-close", "slow-close", "repoll-recv-close", "repoll-send-close", "drop-recv-close", "drop-send-close", "park-close", "two-close"],
+    "C11": ["timed-send-disc", "timed-sendo-disc", "timed-recv-disc", "slow-disc", "repoll-recv-disc", "park-disc", "park-disc-r"],
+    "C04": ["repoll-recv-close", "repoll-recv-disc", "repoll-recv-peer", "timed-recv-peer", "timed-recv-close", "drop-recv-peer"],
+    "C16": _REPOLL + ["stream-rewait"],
+    "C15": _FDROP + ["repoll-recv-peer"],
+    "C07": _FDROP + ["repoll-recv-peer", "repoll-send-peer", "timed-send-peer", "timed-recv-peer", "park-close", "park-disc"],
+    "C06": ["park-close", "park-disc", "park-disc-r", "repoll-recv-peer", "repoll-send-peer", "timed-send-peer", "timed-recv-peer", "slow-close", "stream-rewait"],
+    "C08": ["refill-race", "refill-race-t", "drain-race", "drain-grow"],
+    "C02": ["refill-race", "refill-race-t", "drain-race"],
+    "C03": ["observe", "refill-race", "drain-grow", "two-close", "drain-race"],
+    "C19": ["drain-race", "drain-grow"],
+    "C14": ["drain-grow", "refill-race", "timed-sendo-peer"],
+    "C09": ["repoll-recv-peer", "timed-recv-peer", "repoll-send-peer", "drop-send-peer"],
+}
+
+
+def with_windows(pid, conc_fn):
+    """the property's scheduled-run profiles plus its window sweeps"""
+    if conc_fn is None or pid not in WINDOWS:
+        return conc_fn
+    def f(tier, seed):
+        import conc
+        profs = conc_fn(tier, seed)
+        if not profs:
+            return profs
+        _, monitors, oracles = profs[0]
+        ks = (1, 2, 3, 4, 6) if tier == "quick" else tuple(range(1, 13))
+        classes = ("w", "p") if tier == "quick" else ("w", "p", "l", "z")
+        return profs + [(conc.SweepProfile("windows-" + pid, WINDOWS[pid], classes=classes, ks=ks, pars=("4", "1") if tier != "quick" else ("4",)),
+                         monitors, oracles)]
+    return f
+
+
 def simple(pid, level, fams, conc, relevant, expl, extra_files=(), corpus=(), corpus_mon=()):
     return dict(level=level, lean_targets=[f"Kanal.Props.{pid}"], props_files=[f"Kanal/Props/{pid}.lean"] + list(extra_files),
                 leancheck=[f"Kanal.Props.{pid}"], families=fams, conc=conc, relevant=relevant,
@@ -520,3 +562,7 @@ PROPS = {
         explanation="reference = the atomic-channel model read sequentially (Kanal.seqStep); theorems: the oracle is total on exactly the calls safe Rust can make, deterministic, and the textbook bounded FIFO queue when nobody waits",
     ),
 }
+
+for _pid, _spec in PROPS.items():
+    if _spec.get("conc") is not None:
+        _spec["conc"] = with_windows(_pid, _spec["conc"])
